@@ -138,3 +138,308 @@ Proof.
       right. right. exists s', ks'. destruct (dget s (c_pretry c0)); cbn; fold (ddel s (c_packs c0));
         (split; [exact H1|split; [exact H2|apply in_keys_ddel; assumption]]).
 Qed.
+
+Lemma ack_loop_Custody K h snap : forall c c' o, rid_of K <> -1 -> Custody K c -> ack_loop c h snap = (c', o) -> Custody K c'.
+Proof.
+  induction snap as [|[s t] r IH]; intros c c' o Hr HC E; cbn [ack_loop] in E.
+  - injection E as <- <-. exact HC.
+  - dpair E c1 o1 E1. destruct (ack_loop c1 h r) as [c2 o2] eqn:E2. injection E as <- <-.
+    eapply IH; [exact Hr| |exact E2].
+    destruct (hdr_acks _ _ s); [eapply resolve_Custody; eassumption|].
+    destruct (_ >? _); [eapply resolve_Custody; eassumption|]. injection E1 as <- <-. exact HC.
+Qed.
+
+Lemma timeout_loop_Custody K strict now snap : forall c c' o,
+  rid_of K <> -1 -> Custody K c -> timeout_loop strict c now snap = (c', o) -> Custody K c'.
+Proof.
+  induction snap as [|[s t] r IH]; intros c c' o Hr HC E; cbn [timeout_loop] in E.
+  - injection E as <- <-. exact HC.
+  - dpair E c1 o1 E1. destruct (timeout_loop strict c1 now r) as [c2 o2] eqn:E2. injection E as <- <-.
+    eapply IH; [exact Hr| |exact E2].
+    match type of E1 with (if ?b then _ else _) = _ => destruct b end; [eapply resolve_Custody; eassumption|].
+    injection E1 as <- <-. exact HC.
+Qed.
+
+(* functions that leave the four custody fields alone, or only append to the queue *)
+Lemma Custody_same K c c' :
+  (forall m, In m (c_outgoing c) -> In m (c_outgoing c')) -> c_done c' = c_done c -> c_pcbs c' = c_pcbs c ->
+  c_packs c' = c_packs c -> Custody K c -> Custody K c'.
+Proof. intros O D P A. apply grows_Custody. constructor; auto. intros r. rewrite D. auto. Qed.
+
+Lemma send_type_out c ty p r k : forall m, In m (c_outgoing c) -> In m (c_outgoing (send_type c ty p r k)).
+Proof. intros m Hm. unfold send_type. cbn. apply in_or_app. left. exact Hm. Qed.
+
+Lemma send_frags_out frags : forall c fid n r i m, In m (c_outgoing c) -> In m (c_outgoing (send_frags c fid n r i frags)).
+Proof.
+  induction frags as [|f rest IH]; intros c fid n r i m Hm; cbn [send_frags]; [exact Hm|].
+  apply IH. apply send_type_out. exact Hm.
+Qed.
+
+Lemma send_frags_fields frags : forall c fid n r i,
+  c_done (send_frags c fid n r i frags) = c_done c /\ c_pcbs (send_frags c fid n r i frags) = c_pcbs c.
+Proof.
+  induction frags as [|f rest IH]; intros c fid n r i; cbn [send_frags]; [auto|].
+  destruct (IH (send_type c APP_FRAGMENT (be 2 fid ++ be 2 (1 + i) ++ be 2 n ++ f) r (IFrag fid i)) fid n r (i + 1)) as [A B].
+  rewrite A, B. unfold send_type. cbn. auto.
+Qed.
+
+Lemma send_Custody K e c p r k c' o : Custody K c -> send e c p r k = (c', o) -> Custody K c'.
+Proof.
+  intros HC E. pose proof (send_ack _ _ _ _ _ _ _ E) as [P _ _ _ _]. unfold send in E.
+  destruct (negb _); [injection E as <- <-; exact HC|].
+  destruct (len p >? e_max_payload e).
+  - destruct (len p >? _); injection E as <- <-.
+    + eapply Custody_same; [| | | |exact HC]; cbn; auto.
+    + set (frags := split_frags (S (length p)) e p) in *.
+      set (c0 := c <| c_seq_frag := seq_succ (c_seq_frag c) |>) in *.
+      destruct (send_frags_fields frags c0 (seq_succ (c_seq_frag c)) (len frags) r 0) as [A B].
+      eapply Custody_same; [| | | |exact HC].
+      * intros m Hm. change (In m (c_outgoing (send_frags c0 (seq_succ (c_seq_frag c)) (len frags) r 0 frags))). apply send_frags_out. exact Hm.
+      * change (c_done (send_frags c0 (seq_succ (c_seq_frag c)) (len frags) r 0 frags) = c_done c). rewrite A. reflexivity.
+      * change (c_pcbs (send_frags c0 (seq_succ (c_seq_frag c)) (len frags) r 0 frags) = c_pcbs c). rewrite B. reflexivity.
+      * exact P.
+  - injection E as <- <-. eapply Custody_same; [| | | |exact HC]; unfold send_type; cbn; auto.
+    intros m Hm. apply in_or_app. left. exact Hm.
+Qed.
+
+(* a new guaranteed send takes custody of its own RetrySender *)
+Lemma send_new_Custody e c p k c' o :
+  c_status c = CONNECTED -> len p <= e_max_payload e -> send e c p RTimeout k = (c', o) ->
+  Custody (Retry (c_next_rid c) (seq_succ (c_seq_msg c)) APP p k) c' /\ c_next_rid c' = c_next_rid c + 1.
+Proof.
+  intros Hs Hl E. unfold send in E. rewrite Hs in E. cbn [status_eqb status_code Z.eqb negb] in E.
+  assert (len p >? e_max_payload e = false) as Hg by lia. rewrite Hg in E. injection E as <- <-.
+  split; [|reflexivity]. right. left. eexists. split; [unfold send_type; cbn; apply in_or_app; right; left; reflexivity|reflexivity].
+Qed.
+
+(* ---------- nothing queued is typed UNKNOWN (so packet assembly never discards a selection) ---------- *)
+Definition cbk_ok (k : cb) : Prop := match k with Retry _ _ ty _ _ => ty <> UNKNOWN | Plain _ => True end.
+Definition msg_ok (m : pmsg) : Prop := m_type m <> UNKNOWN /\ forall k, m_cb m = Some k -> cbk_ok k.
+
+Record NU (c : conn) : Prop := {
+  nu_out : Forall msg_ok (c_outgoing c);
+  nu_prm : Forall (fun p => msg_ok (snd p)) (c_pretry_msg c);
+  nu_pcbs : Forall (fun p => Forall cbk_ok (snd p)) (c_pcbs c) }.
+
+Lemma NU_no_unknown c : NU c -> no_unknown c.
+Proof.
+  intros [A B _] m [H|H].
+  - rewrite Forall_forall in A. exact (proj1 (A _ H)).
+  - apply in_map_iff in H as (x & <- & Hx). rewrite Forall_forall in B. exact (proj1 (B _ Hx)).
+Qed.
+
+Lemma NU_same_q c c' : same_q c c' -> NU c -> NU c'.
+Proof. intros [_ _ O P C] [A B D]. constructor; congruence. Qed.
+
+Lemma fire_cb_NU c k ok c' o : cbk_ok k -> NU c -> fire_cb c k ok = (c', o) -> NU c'.
+Proof.
+  intros Hk HN E. unfold fire_cb in E. destruct k as [i|rid mseq ty p i].
+  - eapply NU_same_q; [eapply fire_icb_q; exact E|exact HN].
+  - destruct (zmem rid (c_done c)); [injection E as <- <-; exact HN|].
+    destruct (negb ok).
+    + injection E as <- <-. destruct HN as [A B D]. constructor; cbn; auto.
+      apply Forall_app. split; [exact A|]. repeat constructor; cbn; [exact Hk|]. intros k Hk'. injection Hk' as <-. exact Hk.
+    + apply fire_icb_q in E. eapply NU_same_q; [exact E|]. destruct HN as [A B D]. constructor; cbn; auto.
+Qed.
+
+Lemma fire_all_NU ks : forall c ok c' o, Forall cbk_ok ks -> NU c -> fire_all c ks ok = (c', o) -> NU c'.
+Proof.
+  induction ks as [|k ks IH]; intros c ok c' o HF HN E; cbn [fire_all] in E.
+  - injection E as <- <-. exact HN.
+  - inversion HF as [|? ? Hk HF']; subst.
+    destruct (fire_cb c k ok) as [c1 o1] eqn:E1. destruct (fire_all c1 ks ok) as [c2 o2] eqn:E2.
+    injection E as <- <-. eapply IH; [exact HF'| |exact E2]. eapply fire_cb_NU; eassumption.
+Qed.
+
+Lemma Forall_fold_ddel {A} (P : Z * A -> Prop) l : forall d, Forall P d -> Forall P (fold_left (fun d m => ddel m d) l d).
+Proof. induction l as [|x l IH]; intros d H; cbn; [exact H|]. apply IH. apply Forall_ddel. exact H. Qed.
+
+Lemma resolve_NU ok c s c' o : NU c -> resolve ok c s = (c', o) -> NU c'.
+Proof.
+  intros HN E. unfold resolve in E.
+  set (c0 := if ok then _ else _) in E.
+  assert (N0 : NU c0) by (subst c0; destruct ok; destruct HN as [A B D]; constructor; cbn; auto).
+  destruct (dget s (c_pcbs c0)) as [ks|] eqn:Eg.
+  - destruct (fire_all c0 ks ok) as [c1 o1] eqn:E1.
+    assert (Hks : Forall cbk_ok ks).
+    { destruct N0 as [_ _ D]. rewrite Forall_forall in D. exact (D _ (dget_In _ _ _ Eg)). }
+    pose proof (fire_all_NU _ _ _ _ _ Hks N0 E1) as [A B D]. injection E as <- <-.
+    destruct (dget s (c_pretry c1)); constructor; cbn; auto using Forall_ddel, Forall_fold_ddel.
+  - injection E as <- <-. destruct N0 as [A B D].
+    destruct (dget s (c_pretry c0)); constructor; cbn; auto using Forall_ddel, Forall_fold_ddel.
+Qed.
+
+Lemma ack_loop_NU h snap : forall c c' o, NU c -> ack_loop c h snap = (c', o) -> NU c'.
+Proof.
+  induction snap as [|[s t] r IH]; intros c c' o HN E; cbn [ack_loop] in E.
+  - injection E as <- <-. exact HN.
+  - dpair E c1 o1 E1. destruct (ack_loop c1 h r) as [c2 o2] eqn:E2. injection E as <- <-.
+    eapply IH; [|exact E2]. destruct (hdr_acks _ _ s); [eapply resolve_NU; eassumption|].
+    destruct (_ >? _); [eapply resolve_NU; eassumption|]. injection E1 as <- <-. exact HN.
+Qed.
+
+Lemma timeout_loop_NU strict now snap : forall c c' o, NU c -> timeout_loop strict c now snap = (c', o) -> NU c'.
+Proof.
+  induction snap as [|[s t] r IH]; intros c c' o HN E; cbn [timeout_loop] in E.
+  - injection E as <- <-. exact HN.
+  - dpair E c1 o1 E1. destruct (timeout_loop strict c1 now r) as [c2 o2] eqn:E2. injection E as <- <-.
+    eapply IH; [|exact E2]. match type of E1 with (if ?b then _ else _) = _ => destruct b end;
+      [eapply resolve_NU; eassumption|injection E1 as <- <-; exact HN].
+Qed.
+
+Lemma send_type_NU c ty p r k : ty <> UNKNOWN -> NU c -> NU (send_type c ty p r k).
+Proof.
+  intros Ht [A B D]. unfold send_type. constructor; cbn; auto.
+  apply Forall_app. split; [exact A|]. repeat constructor; cbn; [exact Ht|].
+  intros k0 Hk. unfold mk_cb in Hk. destruct r; [destruct k; try discriminate; injection Hk as <-; exact I| |injection Hk as <-; exact Ht];
+    destruct k; try discriminate; injection Hk as <-; exact I.
+Qed.
+
+Lemma send_frags_NU frags : forall c fid n r i, NU c -> NU (send_frags c fid n r i frags).
+Proof.
+  induction frags as [|f rest IH]; intros c fid n r i HN; cbn [send_frags]; [exact HN|].
+  apply IH. apply send_type_NU; [discriminate|exact HN].
+Qed.
+
+Lemma NU_upd c c' : c_outgoing c' = c_outgoing c -> c_pretry_msg c' = c_pretry_msg c -> c_pcbs c' = c_pcbs c -> NU c -> NU c'.
+Proof. intros O P C [A B D]. constructor; congruence. Qed.
+
+Lemma send_NU e c p r k c' o : NU c -> send e c p r k = (c', o) -> NU c'.
+Proof.
+  intros HN E. unfold send in E. destruct (negb _); [injection E as <- <-; exact HN|].
+  destruct (len p >? e_max_payload e).
+  - destruct (len p >? _); injection E as <- <-; [eapply NU_upd; [| | |exact HN]; reflexivity|].
+    set (frags := split_frags (S (length p)) e p).
+    set (c0 := c <| c_seq_frag := seq_succ (c_seq_frag c) |>).
+    assert (N0 : NU c0) by (eapply NU_upd; [| | |exact HN]; reflexivity).
+    pose proof (send_frags_NU frags c0 (seq_succ (c_seq_frag c)) (len frags) r 0 N0) as N1.
+    eapply NU_upd; [| | |exact N1]; reflexivity.
+  - injection E as <- <-. apply send_type_NU; [discriminate|exact HN].
+Qed.
+
+Lemma recv_msgs_NU ms c now orcs c' o : NU c -> recv_msgs c now ms orcs = (c', o) -> NU c'.
+Proof.
+  intros HN E. revert HN.
+  apply (recv_msgs_rel (fun a b => NU a -> NU b)) with (ms := ms) (now := now) (orcs := orcs) (o := o); try exact E; auto.
+  - intros a bf. apply NU_upd; reflexivity.
+  - intros a s p. apply NU_upd; reflexivity.
+  - intros a n s p a' o' Ef. unfold recv_fragment in Ef. destruct (_ <? _)%nat; [injection Ef as <- <-; auto|].
+    injection Ef as <- <-. destruct (fr_complete _); apply NU_upd; reflexivity.
+  - intros a. apply NU_upd; reflexivity.
+  - intros a ty oo a' os Eh HN. unfold recv_handshake in Eh.
+    destruct ty, (c_server a); try (injection Eh as <- <-; exact HN).
+    + destruct (negb _); [injection Eh as <- <-; exact HN|].
+      destruct (negb _); injection Eh as <- <-; [exact HN|].
+      apply send_type_NU; [discriminate|]. eapply NU_upd; [| | |exact HN]; reflexivity.
+    + destruct (o_parse oo =? 6); [injection Eh as <- <-; eapply NU_upd; [| | |exact HN]; reflexivity|].
+      destruct (negb _); injection Eh as <- <-; [exact HN|].
+      eapply NU_upd; [| | |apply (send_type_NU (a <| c_token := o_token oo |> <| c_key := Some (o_key oo) |>) CHALLENGE_RESP (o_reply oo) RNone IChallenge);
+                           [discriminate|eapply NU_upd; [| | |exact HN]; reflexivity]]; reflexivity.
+    + destruct (negb _); [injection Eh as <- <-; exact HN|].
+      destruct (o_temp_token oo) as [t|]; [|injection Eh as <- <-; exact HN].
+      destruct (t =? o_token oo); injection Eh as <- <-; [eapply NU_upd; [| | |exact HN]; reflexivity|exact HN].
+Qed.
+
+(* ---------- packet assembly ---------- *)
+Lemma retry_pass_sub e now delay items : forall prm msgs cur prm' msgs' cur',
+  retry_pass e now delay items prm msgs cur = (prm', msgs', cur') ->
+  (forall x, In x prm' -> In x prm) /\
+  (forall m, In m msgs' -> In m msgs \/ In m (map snd items)).
+Proof.
+  induction items as [|[ms m] r IH]; intros prm msgs cur prm' msgs' cur' E; cbn [retry_pass] in E.
+  - injection E as <- <- <-. auto.
+  - destruct (now - m_atime m <? delay).
+    + destruct (IH _ _ _ _ _ _ E) as [A B]. split; [exact A|]. intros x Hx. destruct (B x Hx); [left|right; right]; assumption.
+    + destruct (fits _ _ _ _).
+      * destruct (IH _ _ _ _ _ _ E) as [A B]. split.
+        -- intros x Hx. apply A in Hx. apply ddel_In in Hx as [Hx _]. exact Hx.
+        -- intros x Hx. destruct (B x Hx) as [H|H]; [|right; right; exact H].
+           apply in_app_or in H as [H|[<-|[]]]; [left; exact H|right; left; reflexivity].
+      * destruct (IH _ _ _ _ _ _ E) as [A B]. split; [exact A|]. intros x Hx. destruct (B x Hx); [left|right; right]; assumption.
+Qed.
+
+Lemma out_pass_sub e q : forall msgs cur rem msgs' cur',
+  out_pass e q msgs cur = (rem, msgs', cur') ->
+  (forall m, In m rem -> In m q) /\ (forall m, In m q -> In m rem \/ In m msgs') /\
+  (forall m, In m msgs -> In m msgs') /\ (forall m, In m msgs' -> In m msgs \/ In m q).
+Proof.
+  induction q as [|m q IH]; intros msgs cur rem msgs' cur' E; cbn [out_pass] in E.
+  - injection E as <- <- <-. repeat split; auto; intros m [].
+  - destruct (fits _ _ _ _).
+    + destruct (IH _ _ _ _ _ E) as (A & B & C & D). repeat split.
+      * intros x Hx. right. apply A. exact Hx.
+      * intros x [<-|Hx]; [right; apply C; apply in_or_app; right; left; reflexivity|apply B; exact Hx].
+      * intros x Hx. apply C. apply in_or_app. left. exact Hx.
+      * intros x Hx. destruct (D x Hx) as [H|H]; [|right; right; exact H].
+        apply in_app_or in H as [H|[<-|[]]]; [left; exact H|right; left; reflexivity].
+    + destruct (out_pass e q msgs cur) as [[rem0 ms0] cu0] eqn:E0. injection E as <- <- <-.
+      destruct (IH _ _ _ _ _ E0) as (A & B & C & D). repeat split.
+      * intros x [<-|Hx]; [left; reflexivity|right; apply A; exact Hx].
+      * intros x [<-|Hx]; [left; left; reflexivity|]. destruct (B x Hx); [left; right|right]; assumption.
+      * exact C.
+      * intros x Hx. destruct (D x Hx); [left|right; right]; assumption.
+Qed.
+
+Record built_spec (c c' : conn) (now : Z) (r : option (header * list pmsg)) (msgs : list pmsg) : Prop := {
+  bs_from : forall m, In m msgs -> In m (c_outgoing c) \/ In m (map snd (c_pretry_msg c));
+  bs_keep : forall m, In m (c_outgoing c) -> In m (c_outgoing c') \/ In m msgs;
+  bs_rem : forall m, In m (c_outgoing c') -> In m (c_outgoing c);
+  bs_done : c_done c' = c_done c;
+  bs_prm : forall x, In x (c_pretry_msg c') -> In x (c_pretry_msg c) \/ exists m, In m msgs /\ snd x = stamp now m;
+  bs_res : match r with
+           | None => msgs = [] /\ c_pcbs c' = c_pcbs c /\ c_packs c' = c_packs c
+           | Some (h, ms) =>
+               ms = map (stamp now) msgs /\
+               c_packs c' = dset (seq_succ (c_seq_send c)) now (c_packs c) /\
+               c_pcbs c' = match opt_list (map m_cb msgs) with
+                           | [] => c_pcbs c
+                           | cbs => dset (seq_succ (c_seq_send c)) cbs (c_pcbs c)
+                           end
+           end }.
+
+Lemma fold_dset_In (now : Z) retr : forall d x,
+  In x (fold_left (fun (d : list (Z * pmsg)) m => dset (m_seq m) m d) retr d) -> In x d \/ exists m, In m retr /\ snd x = m.
+Proof.
+  induction retr as [|m r IH]; intros d x Hx; cbn [fold_left] in Hx; [left; exact Hx|].
+  destruct (IH _ _ Hx) as [H|(m' & H1 & H2)].
+  - apply dset_In in H as [->|H]; [right; exists m; split; [left; reflexivity|reflexivity]|left; exact H].
+  - right. exists m'. split; [right; exact H1|exact H2].
+Qed.
+
+Lemma build_impl_spec e c now ka delay c' r :
+  no_unknown c -> build_impl e c now ka delay = (c', r) -> exists msgs, built_spec c c' now r msgs.
+Proof.
+  intros Hnu E. unfold build_impl in E.
+  destruct (match c_pretry_msg c with [] => _ | _ => _ end) as [[prm msgs0] cur0] eqn:E0.
+  assert (H0 : (forall x, In x prm -> In x (c_pretry_msg c)) /\ (forall m, In m msgs0 -> In m (map snd (c_pretry_msg c)))).
+  { destruct (c_pretry_msg c) eqn:Ep; [injection E0 as <- <- <-; split; [intros x []|intros m []]|].
+    destruct (retry_pass_sub _ _ _ _ _ _ _ _ _ _ E0) as [A B]. split; [exact A|].
+    intros m Hm. destruct (B m Hm) as [[]|H]. apply sort_items_in. exact H. }
+  destruct H0 as [Hprm Hm0].
+  destruct (out_pass e (c_outgoing c) msgs0 cur0) as [[rem msgs] cu] eqn:E1.
+  destruct (out_pass_sub _ _ _ _ _ _ _ E1) as (A & B & C & D).
+  exists msgs.
+  match type of E with (if ?b then _ else _) = _ => destruct b eqn:Hty end.
+  - (* nothing to send: with no UNKNOWN-typed message this means nothing was selected *)
+    injection E as <- <-.
+    assert (Hnil : msgs = []).
+    { destruct msgs as [|m0 msgs']; [reflexivity|]. exfalso.
+      assert (Hu : m_type m0 <> UNKNOWN).
+      { apply Hnu. destruct (D m0 (or_introl eq_refl)) as [H|H]; [right; apply Hm0; exact H|left; exact H]. }
+      cbn in Hty. destruct (m_type m0); try discriminate. apply Hu. reflexivity. }
+    subst msgs. constructor; cbn; auto; try (intros m []); intros m Hm; destruct (B m Hm) as [H|[]]; left; exact H.
+  - injection E as <- <-.
+    constructor.
+    + intros m Hm. destruct (D m Hm) as [H|H]; [right; apply Hm0; exact H|left; exact H].
+    + intros m Hm. repeat match goal with |- context [match ?x with [] => _ | _ :: _ => _ end] => destruct x end; cbn; apply B; exact Hm.
+    + intros m Hm. apply A. repeat match type of Hm with context [match ?x with [] => _ | _ :: _ => _ end] => destruct x end; cbn in Hm; exact Hm.
+    + repeat match goal with |- context [match ?x with [] => _ | _ :: _ => _ end] => destruct x end; reflexivity.
+    + intros x Hx.
+      assert (Hx' : In x (fold_left (fun d m => dset (m_seq m) m d)
+                            (filter (fun m => negb (retry_is_none (m_retry m))) (map (stamp now) msgs)) prm)).
+      { repeat match type of Hx with context [match ?x with [] => _ | _ :: _ => _ end] => destruct x end; cbn in Hx; exact Hx. }
+      destruct (fold_dset_In now _ _ _ Hx') as [H|(m & H1 & H2)]; [left; apply Hprm; exact H|right].
+      apply filter_In in H1 as [H1 _]. apply in_map_iff in H1 as (m' & <- & Hm'). exists m'. auto.
+    + split; [reflexivity|].
+      repeat match goal with |- context [match ?x with [] => _ | _ :: _ => _ end] => destruct x eqn:? end; cbn; auto.
+Qed.
